@@ -215,3 +215,21 @@ PROPS["C04"] = dict(
     rule="cases = named result arrays of the battery (tables, helper values, apply/evolve/rdm/cirq results); non-trivial = "
          "array with a non-zero entry; distinct by result name",
 )
+
+PROPS["C11"] = dict(
+    level="proof",
+    technique="Lean 4 theorems about the abstract pool machine (frame for out-of-place and in-place steps, history "
+              "independence of returned values, frame over arbitrary out-of-place sequences) + byte-level snapshot "
+              "refinement check of generated operation histories on the real library",
+    text="The machine whose steps are the library's public calls with their pure meaning is proved to leave every other "
+         "object untouched and to return values depending only on argument values. That the library refines it is checked "
+         "over histories of 30-60 calls: SHA-1 snapshots of every live object (coefficients, tensors, operator tables, graph "
+         "string tables and maps) before/after each step, re-evaluation of recorded calls later in the history (after copies "
+         "were mutated, cross-sector maps were linked, the code-path switch was flipped and restored), objects built under "
+         "the other switch setting, and the helpers named in the anchors.",
+    note="Lean kernel; the theorems are true of the machine by construction - the decisive part is the refinement check "
+         "(differential, within the explored histories, norb<=3 plus low-filling shapes norb 7-8).",
+    design_ref="DESIGN.md §5 C11",
+    rule="cases = steps of generated histories (every step snapshots the whole pool) + replayed calls + objects built under "
+         "the other code path; each step is distinct by (history, step)",
+)
